@@ -190,7 +190,7 @@ func init() {
 		defer putModel(m)
 		n := tierN(300, 20000)
 		rng := newRand(19)
-		for i := 0; i < n; i++ {
+		for i := 0; i < n && !expired(); i++ {
 			g := &shapeGen{r: rng, maxBlocks: 3, maxSeqs: 3, maxActs: 3, pGroup: 0.5}
 			if i%10 == 0 {
 				g.pGroup = 0.9
